@@ -22,6 +22,9 @@ type chainCfg struct {
 	// OnResult sees every job result (differential oracles)
 	OnResult func(c *ev.Ctx, hist []int, job Job, res JobResult)
 	NoDedup  bool
+	// PanicSig: when set, a panic of the real application during block execution is a violation with this
+	// signature (a block sequence every node would crash on); otherwise it is an error of the harness run
+	PanicSig string
 }
 
 type chainReplay struct {
@@ -90,6 +93,10 @@ func chainExplore(c *ev.Ctx, cfg *chainCfg) chainStats {
 	seen := map[string]bool{}
 	var mu sync.Mutex
 	handle := func(hist []int, job Job, res JobResult) (string, bool) {
+		if res.AppPanic != "" && cfg.PanicSig != "" {
+			c.Report(cfg.Name+"/"+cfg.PanicSig, "block execution panics: "+res.AppPanic+"  [history: "+fmt.Sprint(blocksText(job.Blocks))+"]", chainReplay{Spec: cfg.Name, Env: job.Env, Blocks: job.Blocks, Want: job.Want, Text: blocksText(job.Blocks)})
+			return "", false
+		}
 		if res.Err != "" {
 			c.HarnessError(fmt.Sprintf("%s: job %v failed: %s", cfg.Name, blocksText(job.Blocks), res.Err))
 			return "", false
@@ -213,6 +220,9 @@ func chainReplayFn(raw json.RawMessage) (string, error) {
 	}
 	res := runJob(Job{Env: r.Env, Blocks: r.Blocks, Want: r.Want})
 	desc := fmt.Sprint(blocksText(r.Blocks))
+	if res.AppPanic != "" {
+		return desc, fmt.Errorf("block execution panics: %s", res.AppPanic)
+	}
 	if res.Err != "" {
 		return desc, fmt.Errorf("harness error: %s", res.Err)
 	}
